@@ -229,7 +229,20 @@ fn gen_script(rng: &mut StdRng, n: usize) -> J {
     let mut cat: Vec<J> = Vec::new();
     for i in 0..ncat {
         // a twin: the same shape (and byte length) as an earlier content, but another meaning
-        let base: Option<J> = if i > 0 && rng.gen_bool(0.3) { Some(cat[rng.gen_range(0..i)].clone()) } else { None };
+        let bj = if i > 0 { rng.gen_range(0..i) } else { 0 };
+        let base: Option<J> = if i > 0 && rng.gen_bool(0.3) { Some(cat[bj].clone()) } else { None };
+        // a case twin: the text of an earlier content with the letter case of one stretch (or of everything) swapped -- the
+        // same program to a case-insensitive language, another string (names are reported as they are spelled)
+        if i > 0 && rng.gen_range(0..8) == 0 {
+            let t = render(bj + 1, &cat[bj]);
+            let chars: Vec<char> = t.chars().collect();
+            let (a, b) = if rng.gen_bool(0.5) || chars.len() < 4 { (0, chars.len()) } else { let a = rng.gen_range(0..chars.len() - 1); (a, (a + rng.gen_range(1..12)).min(chars.len())) };
+            let text: String = chars.iter().enumerate().map(|(k, c)| if k >= a && k < b && c.is_ascii_alphabetic() { if c.is_ascii_lowercase() { c.to_ascii_uppercase() } else { c.to_ascii_lowercase() } } else { *c }).collect();
+            if text != t {
+                cat.push(json!({"shape": "soup", "decls": [], "refs": [], "opaque": true, "text": text}));
+                continue;
+            }
+        }
         match base {
             Some(b) if b["shape"] == "ok" && b["opaque"] == json!(false) => cat.push(twin(rng, &b)),
             // the same text with ONE same-length variant flipped (EXTENDS BaseA -> BaseB, DINT -> BOOL, ...)
